@@ -4,6 +4,7 @@ import Pyunicorn.Lemmas.RelabelNet
 import Pyunicorn.Lemmas.RelabelCross
 import Pyunicorn.Lemmas.RelabelCircuit
 import Pyunicorn.Lemmas.RelabelGeoRec
+import Pyunicorn.Lemmas.RelabelR4
 import Mathlib.Algebra.BigOperators.Group.List.Basic
 import Mathlib.Data.List.Nodup
 /-!
@@ -412,6 +413,27 @@ theorem cross_clustering_relabel (h : IsPerm n idx) (directed : Bool) (A : Cross
   simp only [ctCounts_nat, crossTransitivity_nat, crossLocalClustering_nat,
     crossGlobalClustering_nat, e1, e2]
 
+/-- **the `_sparse` twins** `cross_transitivity_sparse`, `cross_local_clustering_sparse`,
+`cross_global_clustering_sparse` (Python triple loops over *positions* of the concatenated list
+`node_list1 + node_list2`, gated by the cross degree at the position — the two sites seeded change
+C04-2 set against each other): on the renumbered network with the renumbered lists they return the
+old results (round 4; C11's `ctSparse_eq_dense` / `clcSparse_eq_dense` relate them to the compiled
+kernels, this is their equivariance in its own right) -/
+theorem cross_sparse_relabel (h : IsPerm n idx) (directed : Bool) (A : Cross.Adj)
+    (L1 L2 : List Nat) (h1 : ∀ k ∈ L1, k < n) (h2 : ∀ k ∈ L2, k < n) :
+    let P1 := nodes n idx L1; let P2 := nodes n idx L2
+    ctSparseCounts (crossDegree directed (mat A idx) P1 P2) (mat A idx) P1 P2
+      = ctSparseCounts (crossDegree directed A L1 L2) A L1 L2 ∧
+    crossTransitivitySparse directed (mat A idx) P1 P2 = crossTransitivitySparse directed A L1 L2 ∧
+    clcSparse directed (mat A idx) P1 P2 = clcSparse directed A L1 L2 ∧
+    crossGlobalClusteringSparse directed (mat A idx) P1 P2
+      = crossGlobalClusteringSparse directed A L1 L2 := by
+  intro P1 P2
+  have e1 : P1.map idx = L1 := nodes_map_idx h L1 h1
+  have e2 : P2.map idx = L2 := nodes_map_idx h L2 h2
+  simp only [ctSparseCounts_nat, crossDegree_nat, crossTransitivitySparse_nat, clcSparse_nat,
+    crossGlobalClusteringSparse_nat, e1, e2, and_self]
+
 /-- **path-length based cross / internal measures** of a distance matrix carried with the nodes
 (`cross_average_path_length`, `internal_average_path_length`, `cross_closeness`,
 `internal_closeness`, `average_cross_closeness`, `local_efficiency`, `global_efficiency`) -/
@@ -520,14 +542,78 @@ theorem res_admittive_relabel (h : IsPerm n idx) (adj : Circuit.Adj) (adm : Mat)
 `_edge_current_flow_betweenness_fast`: `for t in range(N): for s in range(t)` with the `continue`
 for `i ∈ {s, t}`, unit currents): for an inverse `R'` of the renumbered network that is the
 renumbered old one on the nodes (`res_inverse_relabel`: it satisfies the same defining equations)
-the vertex values are permuted and the edge values permuted on both axes.  *Partial* in that the
-uniqueness of the Moore–Penrose inverse (so that `update_R` must have stored this `R'`) is not
-proved here; the effective resistances (`res_effRes_relabel`) need no such hypothesis. -/
+the vertex values are permuted and the edge values permuted on both axes.  Round 4:
+`res_currentflow_relabel_pinv` below removes the hypothesis `hR`. -/
 theorem res_currentflow_relabel (h : IsPerm n idx) (adm R R' : Mat)
     (hR : ∀ a b, a < n → b < n → R' a b = R (idx a) (idx b)) (i j : Nat) (hi : i < n) (hj : j < n) :
     vcfbKernel n 1 1 (mat adm idx) R' i = vcfbKernel n 1 1 adm R (idx i) ∧
     ecfbKernel n 1 1 (mat adm idx) R' i j = ecfbKernel n 1 1 adm R (idx i) (idx j) :=
   ⟨vcfb_relabel h adm R R' hR i hi, ecfb_relabel h adm R R' hR i j hi hj⟩
+
+/-- **current-flow betweenness, unconditionally** (round 4; replaces the hypothesis of
+`res_currentflow_relabel` that the stored inverse of the renumbered network *is* the renumbered
+one): on every connected resistor network, for *whatever* matrices satisfying the first and
+third Moore–Penrose equations `update_R` stored for the two numberings, the vertex values are
+permuted and the edge values permuted on both axes.  (The kernels read `R` only through
+differences within a column; two such inverses differ by a constant per column —
+`proj_of_pinv13`, `lap_ker_const` of C18 — so uniqueness of the Moore–Penrose inverse is not
+needed.) -/
+theorem res_currentflow_relabel_pinv (h : IsPerm n idx) (adj : Circuit.Adj) (res R R' : Mat)
+    (hN : IsNetwork n adj res) (hconn : CutConnected n (admittance adj res))
+    (hR : IsPinv13 n (Circuit.laplacian n (admittance adj res)) R)
+    (hR' : IsPinv13 n (Circuit.laplacian n (admittance (mat adj idx) (mat res idx))) R')
+    (i j : Nat) (hi : i < n) (hj : j < n) :
+    vcfbKernel n 1 1 (admittance (mat adj idx) (mat res idx)) R' i
+      = vcfbKernel n 1 1 (admittance adj res) R (idx i) ∧
+    ecfbKernel n 1 1 (admittance (mat adj idx) (mat res idx)) R' i j
+      = ecfbKernel n 1 1 (admittance adj res) R (idx i) (idx j) :=
+  currentflow_relabel_pinv h adj res R R' hN hconn hR hR' i j hi hj
+
+/-- **`diameter_effective_resistance()`** (`np.max` of the hand-rolled triangular store
+`for i: for j in range(i)`; `none` = ValueError on the empty store): unchanged, for whatever
+generalised inverses are stored (round 4; the unordered pairs are stored in another order and
+orientation after renumbering) -/
+theorem res_diameter_relabel (h : IsPerm n idx) (adj : Circuit.Adj) (res R R' : Mat)
+    (hN : IsNetwork n adj res) (hconn : CutConnected n (admittance adj res))
+    (hg : IsGinv n (Circuit.laplacian n (admittance adj res)) R)
+    (hg' : IsGinv n (Circuit.laplacian n (admittance (mat adj idx) (mat res idx))) R') :
+    maxOf (allPairs n R') = maxOf (allPairs n R) :=
+  diameterER_relabel h R R' fun a b ha hb =>
+    effRes_relabel h adj res R R' a b ha hb hN hconn hg hg'
+
+/-! ## C05 model: link attributes set after construction, links listed in any order -/
+
+/-- **`set_link_attribute` then `link_attribute` on a twin whose embedded graph lists the links
+in any order** (round 4, seeded change C04-6).  `net` is any `Network` object, `net'` any object
+of the same directedness whose embedded graph object describes the renumbered links — in
+*whatever* order and (undirected) orientation `FromIGraph` / `Load` / an edge list handed them
+over (`hrel` compares the link *relations* only).  After `set_link_attribute(name, V)` resp.
+`set_link_attribute(name, V[idx][:, idx])` (symmetric on undirected networks, as documented)
+`link_attribute(name)` of the twin is the renumbered matrix: the per-edge loops
+`for e in graph.es: e[name] = values[e.tuple]` and `weights[e.tuple] = e[name]` never use the
+position of a link in the edge sequence. -/
+theorem linkattr_relabel (net net' : Repr.Net) (V : Nat → Nat → Rat)
+    (hd : net'.directed = net.directed)
+    (hrel : ∀ i j, i < n → j < n →
+      Repr.rel net'.directed net'.graph i j = Repr.rel net.directed net.graph (idx i) (idx j))
+    (hV : net.directed = false → ∀ i j, V j i = V i j) :
+    ∃ f f', Repr.linkAttr (Repr.setLinkAttr net V) = some f ∧
+      Repr.linkAttr (Repr.setLinkAttr net' (mat V idx)) = some f' ∧
+      ∀ i j, i < n → j < n → f' i j = f (idx i) (idx j) :=
+  linkAttr_relabel net net' V hd hrel hV
+
+/-- the instance `idx = id`: **the order in which the embedded graph lists the links does not
+matter** — two objects describing the same links return the same attribute matrix -/
+theorem linkattr_order_independent (net net' : Repr.Net) (V : Nat → Nat → Rat)
+    (hd : net'.directed = net.directed)
+    (hrel : ∀ i j, Repr.rel net'.directed net'.graph i j = Repr.rel net.directed net.graph i j)
+    (hV : net.directed = false → ∀ i j, V j i = V i j) :
+    ∃ f f', Repr.linkAttr (Repr.setLinkAttr net V) = some f ∧
+      Repr.linkAttr (Repr.setLinkAttr net' V) = some f' ∧ ∀ i j, f' i j = f i j := by
+  obtain ⟨f, hf, hfs⟩ := Repr.linkAttr_setLinkAttr_gen net V (fun hd' i j _ => hV hd' i j)
+  obtain ⟨f', hf', hfs'⟩ := Repr.linkAttr_setLinkAttr_gen net' V
+    (fun hd' i j _ => hV (hd ▸ hd') i j)
+  exact ⟨f, f', hf, hf', fun i j => by rw [hfs', hfs, hrel i j]⟩
 
 /-! ## C12 model over `Rat`: grids and link-distance measures -/
 open Pyunicorn.Geo
@@ -604,6 +690,15 @@ example : coreness 4 exAdj false = [1, 1, 1, 0] ∧
     dist 4 (mat exAdj exPerm) 0 2 = none := by decide +kernel
 example : nodes 4 exPerm [0, 3] = [1, 2] ∧ (nodes 4 exPerm [0, 3]).map exPerm = [0, 3] := by
   decide +kernel
+/-- links of the path 0 — 1 — 2 listed in two different orders / orientations -/
+def exNetA : Repr.Net := { Repr.Net.blank false 3 with graph := [(0, 1), (1, 2)] }
+def exNetB : Repr.Net := { Repr.Net.blank false 3 with graph := [(2, 1), (1, 0)] }
+example : ∀ i j, Repr.rel exNetB.directed exNetB.graph i j = Repr.rel exNetA.directed exNetA.graph i j := by
+  intro i j; rw [Bool.eq_iff_iff]; simp [Repr.rel, exNetA, exNetB, Repr.Net.blank]; omega
+example : (Repr.setLinkAttr exNetA fun i j => (i + j : Nat)).eattr = some [1, 3] ∧
+    (Repr.setLinkAttr exNetB fun i j => (i + j : Nat)).eattr = some [3, 1] := by decide +kernel
+example : Cross.clcSparse false (mat exAdj exPerm) (nodes 4 exPerm [1]) (nodes 4 exPerm [0, 2])
+    = Cross.clcSparse false exAdj [1] [0, 2] := by decide +kernel
 example : IsNetwork 3 (fun i j => i != j) (fun _ _ => 1) :=
   ⟨fun i j _ _ => by simp [bne_comm], fun _ _ _ _ => rfl, fun _ _ _ _ _ => by norm_num⟩
 
